@@ -1818,6 +1818,7 @@ def _symbol_helpers_to_predicates(tree, modname):
     if modname != "write_cgsmiles":
         return set()
     helpers = {}
+    inner_pred = {}
     for st in tree.body:
         if not isinstance(st, ast.FunctionDef) or st.decorator_list:
             continue
@@ -1851,8 +1852,38 @@ def _symbol_helpers_to_predicates(tree, modname):
             src = ast.unparse(st)
             if ".edges[" in src and "order" in src:
                 helpers[st.name] = tables.pop()
+                # a thin wrapper `if P(mol, i, j): return TABLE[...]` / `return ''` around a predicate P: the call sites ask P
+                pnames = [x.arg for x in a.args]
+                ifs = [x for x in ast.walk(st) if isinstance(x, (ast.If, ast.IfExp))]
+                if len(ifs) == 1:
+                    tst, neg = ifs[0].test, False
+                    if isinstance(tst, ast.UnaryOp) and isinstance(tst.op, ast.Not):
+                        tst, neg = tst.operand, True
+                    if isinstance(tst, ast.Call) and isinstance(tst.func, ast.Name) and not tst.keywords and [getattr(x, "id", None) for x in tst.args] == pnames:
+                        # polarity: the symbol is returned where P holds
+                        if isinstance(ifs[0], ast.IfExp):
+                            true_arm = ifs[0].body
+                        else:
+                            r0 = [x.value for x in ifs[0].body if isinstance(x, ast.Return)]
+                            true_arm = r0[0] if r0 else None
+                        arm_is_symbol = isinstance(true_arm, ast.Subscript)
+                        arm_is_empty = isinstance(true_arm, ast.Constant) and true_arm.value == ""
+                        if (not neg and arm_is_symbol) or (neg and arm_is_empty):
+                            inner_pred[st.name] = tst.func.id
+    # a local re-implementation of the predicate itself (three parameters, looks at the order of the edge, returns a truth
+    # value) stays a function as well: TT.edge-symbol judges its truth table
+    predicates = set()
+    for st in tree.body:
+        if isinstance(st, ast.FunctionDef) and not st.decorator_list and st.name not in helpers and len(st.args.args) == 3 and \
+                not st.args.vararg and not st.args.kwarg:
+            src = ast.unparse(st)
+            rets = [r.value for r in ast.walk(st) if isinstance(r, ast.Return) and r.value is not None]
+            if ".edges[" in src and "order" in src and "aromatic" in src and rets and \
+                    all(isinstance(r, (ast.BoolOp, ast.UnaryOp, ast.Compare, ast.Name, ast.Constant)) for r in rets) and \
+                    not any(isinstance(r, ast.Constant) and isinstance(r.value, str) for r in rets):
+                predicates.add(st.name)
     if not helpers:
-        return set()
+        return predicates
     n = 0
 
     def edge_order(call):
@@ -1887,8 +1918,10 @@ def _symbol_helpers_to_predicates(tree, modname):
             if order is None:
                 return node
             tgt = node.targets[0].id
+            if v.func.id in inner_pred:
+                v = ast.copy_location(ast.Call(func=ast.Name(id=inner_pred[v.func.id], ctx=ast.Load()), args=v.args, keywords=[]), v)
             test = v if cond is None else ast.BoolOp(op=ast.And(), values=[v, cond])
-            look = ast.Subscript(value=ast.Name(id=helpers[v.func.id], ctx=ast.Load()), slice=order, ctx=ast.Load())
+            look = ast.Subscript(value=ast.Name(id=helpers[node.value.func.id if isinstance(node.value, ast.Call) else node.value.body.func.id], ctx=ast.Load()), slice=order, ctx=ast.Load())
             out = [ast.Assign(targets=[ast.Name(id=tgt, ctx=ast.Store())], value=ast.Constant(""), lineno=node.lineno),
                    ast.If(test=test, body=[ast.Assign(targets=[ast.Name(id=tgt, ctx=ast.Store())], value=look, lineno=node.lineno)], orelse=[])]
             for o in out:
@@ -1898,8 +1931,8 @@ def _symbol_helpers_to_predicates(tree, modname):
     tree = T().visit(tree)
     if n:
         ast.fix_missing_locations(tree)
-        return set(helpers)
-    return set()
+        return set(helpers) | predicates
+    return predicates
 
 
 def _append_loops_to_comprehensions(tree):
